@@ -46,6 +46,16 @@ type Case struct {
 	Msg         []byte `json:"msg"`
 	WireUnknown int    `json:"wire_unknown"`
 	FreshPools  bool   `json:"fresh_pools,omitempty"`
+	// Prev > 0: the converters are created with other options (bit 0 WriteRequireField, 1 WriteDefaultField,
+	// 2 WriteOptionalField, 3 DisallowUnknownField; value-1) and get O through SetOptions
+	Prev int `json:"prev,omitempty"`
+	// BufCap > 0: j2t runs through DoInto with a caller buffer of capacity BufCap-1
+	BufCap int `json:"buf_cap,omitempty"`
+}
+
+func (cs Case) prevOpts() conv.Options {
+	p := cs.Prev - 1
+	return conv.Options{WriteRequireField: p&1 != 0, WriteDefaultField: p&2 != 0, WriteOptionalField: p&4 != 0, DisallowUnknownField: p&8 != 0}
 }
 
 // ---------------------------------------------------------------------------
@@ -225,9 +235,21 @@ func check(c *pbt.Ctx, cs Case) {
 	{
 		c.Step("j2t opts=%+v", cs.O)
 		cv := j2t.NewBinaryConv(co)
+		if cs.Prev > 0 {
+			cv = j2t.NewBinaryConv(cs.prevOpts())
+			cv.SetOptions(co)
+			c.Class("options-through-SetOptions")
+		}
 		var out []byte
 		text := append(make([]byte, 0, len(cs.Text)+16), cs.Text...)
-		if !c.Protect("", func() { out, err = cv.Do(ctx, comp.Root, text) }) {
+		if cs.BufCap > 0 {
+			// a caller buffer that is too small: the converter has to grow it while structs are open
+			buf := make([]byte, 0, cs.BufCap-1)
+			if !c.Protect("", func() { err = cv.DoInto(ctx, comp.Root, text, &buf); out = buf }) {
+				return
+			}
+			c.Class("j2t:DoInto-small-buffer")
+		} else if !c.Protect("", func() { out, err = cv.Do(ctx, comp.Root, text) }) {
 			return
 		}
 		mustUnknown := cs.Unknown > 0 && cs.O.Disallow
@@ -273,6 +295,9 @@ func check(c *pbt.Ctx, cs Case) {
 				if !c.Fail(reg, "j2t-fields", "j2t output differs from the rule (want vs got): %s\ndocument: %s", d, cs.Show) {
 					return
 				}
+			} else if d := tm.DiffEmptyTypes(want, got); d != "" {
+				c.Failf("j2t-empty-container-types", "j2t output: an empty container is not of the declared type (want vs got): %s\ndocument: %s", d, cs.Show)
+				return
 			}
 		}
 	}
@@ -281,6 +306,10 @@ func check(c *pbt.Ctx, cs Case) {
 	{
 		c.Step("t2j opts=%+v", cs.O)
 		cv := t2j.NewBinaryConv(co)
+		if cs.Prev > 0 {
+			cv = t2j.NewBinaryConv(cs.prevOpts())
+			cv.SetOptions(co)
+		}
 		var out []byte
 		msg := append(make([]byte, 0, len(cs.Msg)+16), cs.Msg...)
 		if !c.Protect("", func() { out, err = cv.Do(ctx, comp.Root, msg) }) {
@@ -359,6 +388,10 @@ func check(c *pbt.Ctx, cs Case) {
 				}
 				if d != "" {
 					c.Failf("cut-fields", "MarshalTo output differs from the rule (want vs got): %s", d)
+					return
+				}
+				if d := tm.DiffEmptyTypes(wantCut, got); d != "" {
+					c.Failf("cut-empty-container-types", "MarshalTo output: an empty container is not of the declared type (want vs got): %s", d)
 					return
 				}
 			}
@@ -577,6 +610,12 @@ func gen(t *rapid.T) Case {
 	}
 	cs.Msg = tm.Encode(wire)
 	cs.FreshPools = rapid.IntRange(0, 15).Draw(t, "freshPools") == 0
+	if rapid.IntRange(0, 2).Draw(t, "smallBuffer") == 0 {
+		cs.BufCap = 1 + []int{0, 1, 8, 16, 24, 32, 48, 64, 100, 128, 256}[rapid.IntRange(0, 10).Draw(t, "bufCap")]
+	}
+	if rapid.IntRange(0, 2).Draw(t, "viaSetOptions") == 0 {
+		cs.Prev = 1 + rapid.IntRange(0, 15).Draw(t, "prevOpts")
+	}
 	return cs
 }
 
@@ -584,7 +623,7 @@ func gen(t *rapid.T) Case {
 func Prop(name string) pbt.Prop[Case] {
 	return pbt.Prop[Case]{
 		Name:  name,
-		Rule:  "generated IDL with any mix of requiredness and scalar defaults at any depth (ids beyond 64/256/32767, recursion) parsed with SetOptionalBitmap x UseDefaultValue; inputs presenting any subset of the fields (absent, null, present; required ones may be missing; unknown members / undeclared wire fields) x all 2^4 combinations of WriteRequireField/WriteDefaultField/WriteOptionalField/DisallowUnknownField (generic: WriteDefault/NotCheckRequireNess/DisallowUnknow); the harness's truth-table model gives, per struct instance, the error or the exact set of fields with their values (present ones unchanged, absent ones filled with the parsed default or the zero value); j2t output, t2j output and generic MarshalTo onto an equal separately parsed descriptor are decoded and compared field by field (order of members free); error codes ErrMissRequiredField / ErrUnknownField; non-trivial = some declared field absent",
+		Rule:  "generated IDL with any mix of requiredness and scalar defaults at any depth (ids beyond 64/256/32767, recursion) parsed with SetOptionalBitmap x UseDefaultValue; inputs presenting any subset of the fields (absent, null, present; required ones may be missing; unknown members / undeclared wire fields) x all 2^4 combinations of WriteRequireField/WriteDefaultField/WriteOptionalField/DisallowUnknownField (generic: WriteDefault/NotCheckRequireNess/DisallowUnknow), in a third of the cases installed through SetOptions on converters created with another combination; j2t in a third of the cases through DoInto with a caller buffer of 0..256 bytes (grown while structs are open); the harness's truth-table model gives, per struct instance, the error or the exact set of fields with their values (present ones unchanged, absent ones filled with the parsed default or the zero value); j2t output, t2j output and generic MarshalTo onto an equal separately parsed descriptor are decoded and compared field by field (order of members free); error codes ErrMissRequiredField / ErrUnknownField; non-trivial = some declared field absent",
 		Gen:   gen,
 		Check: check,
 	}
